@@ -75,7 +75,8 @@ PROPS = {
                      "store modelled as insert-or-ignore by id; the real SQLite store is exercised by the correspondence",
                      "Inv: a node that only ever received unsolicited blocks (served state = last validated, empty write buffer)"]),
     "C13": dict(
-        lean_core=["Props.C13"], lean_code=[], gen_funcs=[], harness="c13",
+        lean_core=["Props.GenTie.Params", "Props.C13"], lean_code=["Props.GenTie.PoolRule"],
+        gen_funcs=["set_coinstate_effects", "add_to_pool_effects"], harness="c13",
         assumptions=["_cleanup catches only ValidateTransactionError; other exceptions cannot arise for a pooled transaction and are treated as eviction in the model"]),
     "C12": dict(
         lean_core=["Props.GenTie.Params", "Props.C13", "Props.C02", "Props.C12", "Props.C12Reach"],
